@@ -675,18 +675,40 @@ def rule_no_output(ctx, rep):
                  'must not produce a token' % sorted(outs), loc(model.unit_of(fn), fn.node))
     mt = model.func('block_tokenizer.make_tokens')
 
-    class Ctor(AbstractValue):
-        def __init__(self, result):
-            self.result = result
+    tok = Obj(model.cls('block_token.Paragraph'), {})
+    tb = model.func('block_tokenizer.tokenize_block')
+
+    class OneLineType(AbstractValue):
+        """A token type that takes every line as a block of its own; constructing it yields nothing for the first
+        and third block (like a link reference definition) and a token for the second."""
+        def __init__(self):
+            self.n = 0
+
+        def abs_getattr(self, interp, name):
+            from ..domains import _AbsBound
+            return _AbsBound(self, name)
+
+        def abs_method(self, interp, name, args, kwargs):
+            if name == 'start':
+                return True
+            if name == 'read':
+                interp.call(interp.getattr(args[0], '__next__'), [], {})
+                self.n += 1
+                return ('block', self.n)
+            return Unknown(name)
 
         def abs_call(self, interp, args, kwargs):
-            return self.result
-    tok = Obj(model.cls('block_token.Paragraph'), {})
-    it = Interp(model)
+            return tok if args and args[0] == ('block', 2) else None
+    it = Interp(model, loop_bound=4, while_bound=6)
     it.reset_run(Oracle())
-    res = it.call_function(mt, [[(Ctor(None), 'r1', 1), (Ctor(tok), 'r2', 2), (Ctor(None), 'r3', 3)]], {})
+    # the parse buffer is built by the tokenizer itself (its entry layout is its own business)
+    try:
+        pb = it.call_function(tb, [[AbsStr(label='l1'), AbsStr(label='l2'), AbsStr(label='l3')], [OneLineType()]], {})
+        res = it.call_function(mt, [pb], {})
+    except Raised as e:
+        res = 'raises %s' % e.exc.kind
     ok = isinstance(res, list) and len(res) == 1 and res[0] is tok and tok.attrs.get('line_number') == 2
-    rep.obligation('R-NO-OUTPUT', ok, {'make_tokens([None-ctor, token-ctor, None-ctor])': repr(res)[:80]})
+    rep.obligation('R-NO-OUTPUT', ok, {'make_tokens of three blocks of which the first and third construct to None': repr(res)[:80]})
     if not ok:
         rep.find('R-NO-OUTPUT', mt.short, 'drops-none', 'make_tokens does not drop constructor results that are None '
                  '(or loses/reorders tokens): %r' % (res,), loc(model.unit_of(mt), mt.node))
